@@ -41,12 +41,13 @@ OPTS = [[], ["cg:Z:10="], ["tp:A:P", "cg:Z:4=1X5="], ["tp:A:P", "cg:Z:10=", "NM:
 STATES = ["H1", "H2", "none", "missing", "twice"]
 
 
+R1 = '"r1"/ccs'  # a read name that starts with a double quote (no white space: valid)
 R2 = "@r2/1"  # a read name as it appears in a FASTQ header line
 
 
 def alphabet():
     out = []
-    for read in ("r1", R2):
+    for read in (R1, R2):
         for strand in "+-":
             for pi, (path, plen, ps, pe) in enumerate(PATHS):
                 for oi in (range(len(OPTS)) if pi == 0 else (pi % len(OPTS), (pi + 2) % len(OPTS))):
@@ -63,12 +64,12 @@ def tsv_text(states, header):
         lines.append("#readname\thaplotype\tphaseset\tchromosome")
     for i in range(TSV_FILLER[0]):
         lines.append(f"other_read_{i:07d}\tH{1 + i % 2}\t{1000 + i % 7}\tchr{1 + i % 22}")
-    for read, st in zip(("r1", R2), states):
+    for read, st in zip((R1, R2), states):
         if st == "missing":
             continue
         hap = st if st in ("H1", "H2") else ("H2" if st == "twice" else "none")
         ps = "1205" if hap != "none" else "none"  # the same phase-set id on two contigs: ids are only unique per contig
-        line = f"{read}\t{hap}\t{ps}\tchr{1 if read == 'r1' else 2}"
+        line = f"{read}\t{hap}\t{ps}\tchr{1 if read == R1 else 2}"
         lines.append(line)
         if st == "twice":
             lines.append(line)
@@ -76,11 +77,11 @@ def tsv_text(states, header):
 
 
 def expected_phase(read, states):
-    st = states[0 if read == "r1" else 1]
+    st = states[0 if read == R1 else 1]
     if st in ("none", "missing"):
         return None
     hap = "H2" if st == "twice" else st
-    return hap, f"chr{1 if read == 'r1' else 2}", "1205"
+    return hap, f"chr{1 if read == R1 else 2}", "1205"
 
 
 def well_formed_field(f):
